@@ -327,6 +327,12 @@ class PyvalColorizer:
                 self._trim_result(state.result, 3)
                 state.result.append(self.ELLIPSIS)
             is_complete = False
+        except Exception as e:
+            # The value can't be represented (i.e. expression nested too deeply,
+            # integer too big to be converted to a string).
+            state.warnings.append(f"Cannot colorize value: {e.__class__.__name__}: {e}")
+            state.result.append(self.UNKNOWN_REPR)
+            is_complete = False
         else:
             is_complete = True
         
